@@ -182,6 +182,13 @@ def eval_case(c):
             if not np.array_equal(s['love'][j].view(float), alone[0].view(float), equal_nan=True):
                 e = float(np.nanmax(np.abs(s['love'][j] - alone[0])))
                 V('R3-type-depends-on-companions', f'tidal Love numbers solved alone {[complex(x) for x in alone[0]]} differ from slot {j} of solve_for={sf}: {[complex(x) for x in s["love"][j]]} (max diff {e:.3e}; must be bit-identical)', sf=list(sf))
+        # the default request (solve_for=None) is the tidal solution: bit-identical to an explicit ('tidal',) for both nondimensionalize values
+        for nd_ in (True, False):
+            s_def, s_exp = run(base, None, nd=nd_), run(base, ('tidal',), nd=nd_)
+            if s_def['success'] and s_exp['success']:
+                cnt['pairs_compared'] += 1
+                if not np.array_equal(s_def['love'][0].view(float), s_exp['love'][0].view(float), equal_nan=True):
+                    V('R3-default-request-differs-from-tidal', f'solve_for=None gives {[complex(x) for x in s_def["love"][0]]} but solve_for=(\'tidal\',) gives {[complex(x) for x in s_exp["love"][0]]} (nondimensionalize={nd_}; must be bit-identical)', nd=nd_)
         la, _ = conv(base, ('loading',))
         s = run(base, ('tidal', 'loading'))
         if la is not None and s['success']:
